@@ -23,6 +23,7 @@ func HarnessCrash() {
 	}
 	acked := zzViewDump(db, "crash/acked0")
 	var inflight []zzKV
+	inFlight := false // a commit was started and not yet acknowledged
 	closing := false
 	crashed := zz.RunUntilCrash(func() {
 		for t := 0; t < ntx; t++ {
@@ -34,10 +35,12 @@ func HarnessCrash() {
 				continue
 			}
 			inflight = zzDump(tx)
+			inFlight = true
 			err = tx.Commit()
 			zz.Assert(err == nil, "crash/commit")
 			acked = inflight
 			inflight = nil
+			inFlight = false
 			zz.Reach("commit-acknowledged")
 		}
 		if !withReader && zz.Param("close", 1) == 1 {
@@ -58,7 +61,7 @@ func HarnessCrash() {
 	}
 	got := zzViewDump(db2, "crash/recovered")
 	isAcked := zzSameKVs(got, acked)
-	if inflight != nil {
+	if inFlight {
 		zz.Reach("crash-with-commit-in-flight")
 		zz.Assert(zz.Or(isAcked, zzSameKVs(got, inflight)), "crash/recovered-is-acknowledged-or-inflight-state")
 	} else {
